@@ -22,9 +22,9 @@ from . import common
 
 ID = "C01"
 LEVEL = "exploration"
-KNOBS = {"p_firing_timeout": 0.12, "p_zero_attempts": 0.04, "p_per_class": 0.7, "p_single_call": 0.45, "max_calls": 4, "p_budget": 0.2,
+KNOBS = {"p_long": 0.06, "p_firing_timeout": 0.12, "p_zero_attempts": 0.04, "p_per_class": 0.7, "p_single_call": 0.45, "max_calls": 4, "p_budget": 0.2,
          "p_generous": 0.7, "p_ok": 0.1, "p_retryable": 0.8, "p_abort": 0.1, "p_decisions": 0.2, "p_hostile": 0.05}
-RULE = ("seeded swarm: max_attempts 0..8, per-class limits 0..3 on 0-3 classes, UNKNOWN cap None/0..3, strategy tables "
+RULE = ("seeded swarm: max_attempts 0..8 (6 %: 12..48 with caps up to 30), per-class limits 0..3 on 0-3 classes, UNKNOWN cap None/0..3, strategy tables "
         "with holes, optional budget, outcome scripts mixing all 8 classes and both causes, 1-4 calls on one policy "
         "object, every entry point sync+async; distinct by trace shape; non-trivial = >=1 failed attempt")
 COMPONENTS = common.REAL_COMPONENTS
